@@ -192,7 +192,16 @@ func runC17(c *fw.Case) (o fw.Outcome) {
 			want := []byte{0x80}
 			for u := 0; u < n; u++ {
 				l := pick(r, 0, 1, 2, 4, 16, 255, r.Intn(256))
-				unit := &nasConvert.ProtocolOrContainerUnit{ProtocolOrContainerID: uint16(r.Intn(1 << 16)), LengthOfContents: uint8(l), Contents: rbytes(r, l)}
+				id := uint16(r.Intn(1 << 16))
+				cont := rbytes(r, l)
+				if r.Intn(2) == 0 { // the identifiers TS 24.008 10.5.6.3 assigns (PPP protocols and additional parameters)
+					id = pick(r, uint16(0x8021), 0xc021, 0xc023, 0xc223, 0x0001, 0x0002, 0x0003, 0x0005, 0x000a, 0x000c, 0x000d, 0x0010, 0x0011, 0x0023, 0xff00, 0xffff)
+					if l >= 4 && r.Intn(2) == 0 { // contents shaped like a PPP packet: code, identifier, 16-bit length (smaller than, equal to, larger than the unit)
+						inner := pick(r, l, l-1, 4, l/2, l+1, 0, 0xffff)
+						cont[0], cont[1], cont[2], cont[3] = byte(1+r.Intn(4)), byte(r.Intn(256)), byte(inner>>8), byte(inner)
+					}
+				}
+				unit := &nasConvert.ProtocolOrContainerUnit{ProtocolOrContainerID: id, LengthOfContents: uint8(l), Contents: cont}
 				p.ProtocolOrContainerList = append(p.ProtocolOrContainerList, unit)
 				want = append(want, byte(unit.ProtocolOrContainerID>>8), byte(unit.ProtocolOrContainerID), byte(l))
 				want = append(want, unit.Contents...)
